@@ -51,6 +51,8 @@ fn dispatch(name: &str, s: &mut src::ReplaySrc) -> bool {
         "possible_intersection_none_f64" => divide::possible_intersection_contract_body::<f64, _>(s, 0),
         "possible_intersection_point_f64" => divide::possible_intersection_contract_body::<f64, _>(s, 1),
         "possible_intersection_point_f32" => divide::possible_intersection_contract_body::<f32, _>(s, 1),
+        "nextafter_successor_f32" => widen::nextafter_successor_f32_body(s),
+        "nextafter_successor_f64" => widen::nextafter_successor_f64_body(s),
         "divide_segment_bump_f32" => divide::divide_segment_bump_f32_body(s),
         "divide_segment_n2_instance" => divide::divide_segment_n2_instance_body(s),
         "divide_segment_contract_f64" => divide::divide_segment_contract_body::<f64, _>(s),
